@@ -67,6 +67,14 @@ def analyse_try_from_iter(ctx, cfg, fn, MAX):
                 out.append(AND(eq(ps, S(k)), eq(pe, E(k))))
             for w in ws:
                 out.append(le(w, T.mk_add(pe, I(1))))
+        if not prevs:
+            # the previous interval is remembered by its end alone (a scalar): which u32 is which is decided by the invariants that survive
+            for x in ws:
+                for k in poss:
+                    out.append(eq(x, E(k)))
+                for w in ws:
+                    if w != x:
+                        out.append(le(w, T.mk_add(x, I(1))))
         for w in ws:
             out.append(le(w, I(MAX + 1)))
         return out
@@ -89,20 +97,29 @@ def analyse_try_from_iter(ctx, cfg, fn, MAX):
         poss = [hv for hv, ev in bmap if T.TYPES.get(hv) == 'usize']
         ws = [hv for hv, ev in bmap if T.TYPES.get(hv) == 'u32']
         prevs = [hv for hv, ev in bmap if T.TYPES.get(hv) is None and hv[0] == 'var' and '.r' in hv[1]]
-        ok = len(poss) == 1 and len(ws) == 1 and len(prevs) == 1
+        scalar = [x for x in ws if len(poss) == 1 and eq(x, E(poss[0])) in valid] if not prevs else []
+        ok = len(poss) == 1 and ((len(ws) == 1 and len(prevs) == 1) or (len(ws) == 2 and len(scalar) == 1))
         if not ok:
             ctx.obligation(False)
             ctx.violation('C11.R5', 'C11.R5/try_from_iter/head-variables', fn.path, fn.site(), {'mapping': [T.show(a) for a, b in bmap]}, cfg)
             continue
-        k, w, pv = poss[0], ws[0], prevs[0]
-        pe = T.fld(pv, 'end', 'u32')
+        k = poss[0]
         cs, ce = S(T.mk_add(k, I(1))), E(T.mk_add(k, I(1)))
-        inv = AND(eq(T.fld(pv, 'start', 'u32'), S(k)), eq(pe, E(k)))
+        if prevs:
+            w, pv = ws[0], prevs[0]
+            pe = T.fld(pv, 'end', 'u32')
+            inv = AND(eq(T.fld(pv, 'start', 'u32'), S(k)), eq(pe, E(k)))
+            becomes = AND(eq(T.fld(cur.get(pv, pv), 'start', 'u32') if cur.get(pv) is not None else cs, cs), TRUE)
+        else:
+            pe = scalar[0]
+            w = [x for x in ws if x != pe][0]
+            inv = eq(pe, E(k))
+            becomes = eq(cur[pe], ce) if isinstance(cur.get(pe), tuple) else FALSE
         okinv = inv in valid and le(w, T.mk_add(pe, I(1))) in valid
         ctx.obligation(okinv)
         (ctx.ok if okinv else ctx.violation)('C11.R5', 'C11.R5/try_from_iter/invariant:prev-is-predecessor-and-witness-bounded', fn.path, fn.site(), {'surviving': [T.show(c)[:120] for c in valid]}, cfg)
         goals = [('continues-only-past-a-disjoint-pair', lt(pe, cs)),
-                 ('prev-becomes-current', AND(eq(T.fld(cur.get(pv, pv), 'start', 'u32') if cur.get(pv) is not None else cs, cs), TRUE))]
+                 ('prev-becomes-current', becomes)]
         goals += [(r, g) for r, g in witness_step_goals(w, cur.get(w, w), cs, ce)]
         for role, goal in goals:
             okg = ip.entails(bst, goal)
